@@ -404,12 +404,13 @@ func (db *SingleBucketBackend) PutObject(
 		return result, err
 	}
 
-	db.lock.Lock()
-	defer db.lock.Unlock()
-
 	objectFilePath := filepath.FromSlash(objectName)
 	objectDir := filepath.Dir(objectFilePath)
 
+	// The body arrives without the lock held: a client that is slow, or stops
+	// in the middle of its upload, must not keep every other request to this
+	// backend waiting. The temporary file is this upload's own.
+	//
 	// The body is written to a temporary file and only moved into place once
 	// it has arrived in full and the reader's checks (length, Content-MD5)
 	// have passed. Writing to the destination directly would truncate the
@@ -452,6 +453,9 @@ func (db *SingleBucketBackend) PutObject(
 		return result, err
 	}
 	closed = true
+
+	db.lock.Lock()
+	defer db.lock.Unlock()
 	verifhook.At("fs.put.before-meta")
 
 	if conflict, err := keyConflict(db.fs, "", objectName); err != nil {
